@@ -1,5 +1,5 @@
 /-
-  C06 — the pairing of source and destination selections.  The specification (`pairUp`, written
+  C06 — the pairing of source and destination selections (`pairing_agrees`).  The specification (`pairUp`, written
   from docs/floogen.md: "contiguous grouping") and the model of create_connections (duplicate each
   element of the shorter side k times, then zip) agree for all selections.
 -/
@@ -48,6 +48,56 @@ theorem zip_replicate_eq (srcs dsts : List String) (k : Nat) (hk : 0 < k)
       simp [List.length_flatMap, List.map_const', List.sum_replicate_nat]; exact hi)]
     rfl
 
+theorem zip_replicate_eq' (srcs dsts : List String) (k : Nat) (hk : 0 < k)
+    (hlen : dsts.length = srcs.length * k) :
+    (srcs.flatMap fun s => List.replicate k s).zip dsts =
+      dsts.zipIdx.map fun (t, i) => (srcs.getD (i / k) "", t) := by
+  apply List.ext_getElem
+  · simp [hlen, List.length_flatMap, List.map_const', List.sum_replicate_nat]
+  · intro i h1 h2
+    simp only [List.getElem_zip, List.getElem_map, List.getElem_zipIdx, Nat.zero_add]
+    congr 1
+    have hi : i < srcs.length * k := by simp at h2; omega
+    have := getD_flatMap_replicate k hk srcs i hi
+    rw [List.getD_eq_getElem?_getD] at this
+    rw [← this, List.getElem?_eq_getElem (by
+      simp [List.length_flatMap, List.map_const', List.sum_replicate_nat]; exact hi)]
+    rfl
+
+/-- **the generator pairs sources and destinations exactly as the specification says**, for all
+    selections: same pairs in the same order, and an error exactly where the specification has none -/
+theorem pairing_agrees (multi : Bool) (srcs dsts : List String) :
+    (match Model.matchLists multi srcs dsts with
+     | .ok (a, b) => some (a.zip b)
+     | .error _ => none) = pairUp srcs dsts multi := by
+  unfold Model.matchLists pairUp
+  simp only
+  by_cases c1 : (srcs.length == dsts.length) = true
+  · simp [c1, pure, Except.pure]
+  rw [if_neg c1, if_neg c1]
+  by_cases c2 : (multi && dsts.length != 0 && srcs.length % dsts.length == 0 && decide (srcs.length > dsts.length)) = true
+  · rw [if_pos c2, if_pos c2]
+    simp only [pure, Except.pure]
+    congr 1
+    simp only [Bool.and_eq_true, bne_iff_ne, ne_eq, beq_iff_eq, decide_eq_true_eq] at c2
+    obtain ⟨⟨⟨_, hnd⟩, hmod⟩, hgt⟩ := c2
+    have hk : 0 < srcs.length / dsts.length := Nat.div_pos (Nat.le_of_lt hgt) (Nat.pos_of_ne_zero hnd)
+    exact zip_replicate_eq srcs dsts _ hk (by
+      have := Nat.div_add_mod srcs.length dsts.length
+      rw [hmod, Nat.add_zero] at this; exact this.symm)
+  rw [if_neg c2, if_neg c2]
+  by_cases c3 : (multi && srcs.length != 0 && dsts.length % srcs.length == 0 && decide (dsts.length > srcs.length)) = true
+  · rw [if_pos c3, if_pos c3]
+    simp only [pure, Except.pure]
+    congr 1
+    simp only [Bool.and_eq_true, bne_iff_ne, ne_eq, beq_iff_eq, decide_eq_true_eq] at c3
+    obtain ⟨⟨⟨_, hns⟩, hmod⟩, hgt⟩ := c3
+    have hk : 0 < dsts.length / srcs.length := Nat.div_pos (Nat.le_of_lt hgt) (Nat.pos_of_ne_zero hns)
+    exact zip_replicate_eq' srcs dsts _ hk (by
+      have := Nat.div_add_mod dsts.length srcs.length
+      rw [hmod, Nat.add_zero] at this; exact this.symm)
+  rw [if_neg c3, if_neg c3]
+  rfl
 /-! non-vacuity -/
 example : pairUp ["a", "b", "c", "d"] ["x", "y"] true = some [("a", "x"), ("b", "x"), ("c", "y"), ("d", "y")] := by decide
 example : pairUp ["a", "b", "c"] ["x", "y"] true = none := by decide
